@@ -18,12 +18,20 @@ pub struct Instant(std::time::Instant);
 #[allow(dead_code)]
 impl Instant {
     pub fn now() -> Self {
+        #[cfg(feature = "verif-hooks")]
+        if let Some(t) = crate::verif_hooks::clock_now() {
+            return Self(t);
+        }
         Self(std::time::Instant::now())
     }
     pub fn duration_since(&self, earlier: Instant) -> Duration {
         self.0.duration_since(earlier.0)
     }
     pub fn elapsed(&self) -> Duration {
+        #[cfg(feature = "verif-hooks")]
+        if let Some(t) = crate::verif_hooks::clock_now() {
+            return t.duration_since(self.0);
+        }
         self.0.elapsed()
     }
     pub fn checked_add(&self, duration: Duration) -> Option<Self> {
